@@ -8,6 +8,7 @@ Definition w (i : instr) : nat :=
   | IPriv _ | IPark _ | IXWait | ICvWalk | IRel => 1
   | ICvResolve => 2 | ICvDtor => 3 | ICvPark _ => 4 | ICvSet _ => 6 | ICvReady => 7 | ICvClaim => 8
   | IOClaim => 3 | IOWait => 4
+  | IPark2 | IXWait2 | IWalk2 => 1 | ISub2 _ => 2 | IResolve2 => 2 | IClaim2 | IDtorP2 => 3
   | IWalk => 9 | ISub _ => 10 | IReady => 11 | IResolve => 10 | IClaim _ | IDtorP => 11
   | IOSub _ => 2 | IOReady => 3
   end.
@@ -17,20 +18,21 @@ Definition weight (s : st) : nat := wl (th0 s) + wl (th1 s) + wl (th2 s).
 Lemma weight_step c s i : Inv c s -> enabled s i = true -> weight (fst (tstep c s i)) < weight s.
 Proof.
   intros I E. unfold tstep, enabled, weight in *.
-  destruct I as [I1 I2 I3 I4 I5 I6 I7 I8 I9 I10 I11 I12 Itok Iph IphB Iowc Ip4 Irp Ioht Iocc I13 Ioh Iop0 Idec Iow0 Iow1 Iow2 I14 I15 I16 I17 I18 I19 I20 I21 I22 I23 I24 I25 I26 I27 I28 I29 I30 I31 I32 I33 I34 I35].
+  destruct I as [I1 I2 I3 I4 I5 I6 I7 I8 I9 I10 I11 I12 Itok Iph IphB Iowc Ip4 Irp Ioht Iocc I13 Ioh Iop0 Idec Iow0 Iow1 Iow2 I14 I15 I16 I17 I18 I19 I20 I21 I22 I23 I24 I25 I26 I27 I28 I29 I30 I31 I32 I33 I34 I35 Jcfg J1 J2 J3 J20 J21 J4 J5 J6 J7 Jx0 Jx1 Jx2 Jxc].
   unfold N in *.
   assert (CV : cv c <= 1) by (unfold cv, b2n; destruct (is_conv c); lia).
   assert (NF1 : nfire s <= 1) by (destruct (slot s); cbn [rdy] in I6; lia).
   assert (CVN : cv c * nfire s <= nfire s) by (unfold cv, b2n; destruct (is_conv c); lia).
+  assert (REN : re c * nfire s <= nfire s) by (unfold re; destruct (c_re c); lia).
   destruct i as [|[|[|i]]]; cbn [thr] in *; [| | |discriminate].
   all: dth s.
-  all: destruct ins; unfold exec, fire, deliver.
+  all: destruct ins; unfold exec, fire, fire2, deliver.
   all: red1; dflags s; red1.
   all: try (dpay s; red1; dflags s).
   all: try match goal with g : bool |- _ => destruct g end.
   all: red1; cbn [wl w app].
   all: redch.
-  all: try (clear - I2 I4 I6 I11 I15 CV NF1 CVN; lia).
+  all: try (clear - I2 I4 I6 I11 I15 J2 J4 J6 CV NF1 CVN REN; lia).
   all: try lia.
 Qed.
 
